@@ -25,8 +25,8 @@ def sets_for(tier):
         return [("protocol-5", {"FiftyLimit": 4, "MaxLen": 5, "Mode": "protocol", "Emit": True, "MaxLegal": 3}),
                 ("claims-10", {"FiftyLimit": 6, "MaxLen": 10, "Mode": "claims", "Emit": True, "MaxLegal": 2})]
     return [("protocol-6", {"FiftyLimit": 4, "MaxLen": 6, "Mode": "protocol", "Emit": True, "MaxLegal": 3}),
-            ("claims-12", {"FiftyLimit": 6, "MaxLen": 12, "Mode": "claims", "Emit": True, "MaxLegal": 3}),
-            ("claims-9-8", {"FiftyLimit": 8, "MaxLen": 9, "Mode": "claims", "Emit": True, "MaxLegal": 4})]
+            ("claims-12", {"FiftyLimit": 6, "MaxLen": 12, "Mode": "claims", "Emit": True, "MaxLegal": 2}),
+            ("claims-9-8", {"FiftyLimit": 8, "MaxLen": 9, "Mode": "claims", "Emit": True, "MaxLegal": 3})]
 
 
 def ensure_sets(tier):
